@@ -19,6 +19,7 @@ var (
 		"name":    regexp.MustCompile(`\bname=[0-9A-F]+\b`),
 		"comm":    regexp.MustCompile(`\bcomm=[0-9A-F]+\b`),
 		"profile": regexp.MustCompile(`\bprofile=[0-9A-F]+\b`),
+		"target":  regexp.MustCompile(`\btarget=[0-9A-F]+\b`),
 	}
 )
 
